@@ -55,11 +55,14 @@ def _init():
     _W["root"] = core.scratch_dir("mpv-ncrun-")
 
 
-def to_array(grid):
+def to_array(grid, nomask=False):
     import numpy as np
 
     shape, kind, cells = grid
     vals = [(0 if c[1] == 0 else (c[0] // c[1] if kind == "i" else c[0] / c[1])) for c in cells]
+    if nomask and not any(c[1] == 0 for c in cells):
+        # a result without any missing cell usually carries no mask array at all (numpy.ma.nomask)
+        return np.ma.array(vals, dtype="int64" if kind == "i" else "float64").reshape(shape)
     a = np.ma.array(vals, mask=[c[1] == 0 for c in cells], dtype="int64" if kind == "i" else "float64").reshape(shape)
     return a
 
@@ -143,7 +146,7 @@ def run_case(job):
             p = Program(libraries=LIBS, working_dir=wd)
             names = []
             for i, g in enumerate(gs):
-                vp.ARRAYS["g%d" % i] = to_array(g)
+                vp.ARRAYS["g%d" % i] = to_array(g, nomask=(jid % 3 != 0))
                 nm = "Res%d" % i
                 p.add_command(p.find_command_class("ArrayConst"), nm, {"Key": "g%d" % i})
                 names.append(nm)
